@@ -305,6 +305,7 @@ fn check_history(cases: &[Case], out: &mut Out) {
     let fresh: Vec<Option<Box<QRCode>>> = cases.iter().map(|c| match build(c) { Built::Ok(q) => Some(q), _ => None }).collect();
     for (i, c) in cases.iter().enumerate() {
         let Some(f) = &fresh[i] else { continue };
+        if f.mask.is_none() || f.version.is_none() { continue; }   // reported by the C04 clauses; nothing to replay
         // reused builder, second build
         let b = c.builder();
         let r1 = b.build().ok(); let r2 = b.build().ok();
